@@ -38,6 +38,7 @@ class Contract:
     total: bool = False
     result_kind: Optional[str] = None
     result_fresh: bool = False
+    result_opaque: bool = False                # result is a fresh unconstrained value at every call (arguments not recorded)
     mutable: List[str] = field(default_factory=list)
     frame: List[str] = field(default_factory=lambda: ['C09'])
     props: List[str] = field(default_factory=list)
@@ -45,6 +46,7 @@ class Contract:
     trusted: bool = False                      # contract assumed, body not verified (listed in evidence)
     note: str = ''
     lemma: bool = False                        # pure spec lemma: no code, goal must be valid
+    table: bool = False                        # module-level value (literal table / stock object)
 
     def all_props(self) -> List[str]:
         ps = set(self.props) | set(self.frame if not self.trusted else [])
@@ -81,7 +83,7 @@ class Sidecar:
                 if isinstance(st, ast.FunctionDef):
                     self.spec_funcs[st.name] = st
                 elif isinstance(st, ast.Expr) and isinstance(st.value, ast.Call) and isinstance(st.value.func, ast.Name) \
-                        and st.value.func.id in ('SPEC', 'LEMMA'):
+                        and st.value.func.id in ('SPEC', 'LEMMA', 'TABLE'):
                     self._spec(st.value, fn)
             for ln, line in enumerate(src.splitlines(), 1):
                 if any(w in line for w in ('assumes=', 'trusted=True')):
@@ -111,7 +113,10 @@ class Sidecar:
 
     def _spec(self, call: ast.Call, fn: str):
         is_lemma = call.func.id == 'LEMMA'
-        if is_lemma:
+        if call.func.id == 'TABLE':
+            mod, name = self._lit(call.args[0]), self._lit(call.args[1])
+            con = Contract(key=f'{mod}:{name}', file=fn, table=True)
+        elif is_lemma:
             name = self._lit(call.args[0])
             con = Contract(key='lemma:' + name, file=fn, lemma=True)
         else:
@@ -139,7 +144,7 @@ class Sidecar:
                 con.invariants = {self._lit(kk): vv for kk, vv in zip(v.keys, v.values)}
             elif k == 'variants':
                 con.variants = {self._lit(kk): vv for kk, vv in zip(v.keys, v.values)}
-            elif k in ('total', 'result_kind', 'result_fresh', 'mutable', 'frame', 'props', 'total_attr_roots', 'trusted', 'note'):
+            elif k in ('total', 'result_kind', 'result_fresh', 'result_opaque', 'mutable', 'frame', 'props', 'total_attr_roots', 'trusted', 'note'):
                 setattr(con, k, self._lit(v))
             elif k == 'goal' and is_lemma:
                 con.ensures = self._clauses(v, 'lemma')
@@ -189,6 +194,9 @@ class Engine(Core, Expr, Calls, Builtins, Stmts):
         self.iter_facts_added = set()
         self.kept_cache = set()
         self.frame_sites = set()
+        self.func_summ = set()
+        self.notes = []
+        self.lemma_sink = None
         self.hashable_terms = set()
         self.mutable_terms = set()
         self.map_value_kind: Dict[str, str] = {}
@@ -224,6 +232,8 @@ class Engine(Core, Expr, Calls, Builtins, Stmts):
         t0 = time.time()
         if con.lemma:
             return self.verify_lemma(con)
+        if con.table:
+            return self.verify_table(con)
         fi = self.idx.func(con.key)
         th = self.th
         self.cur_module, self.cur_qual, self.cur_class = fi.module, fi.qualname, fi.cls
@@ -313,6 +323,36 @@ class Engine(Core, Expr, Calls, Builtins, Stmts):
                 continue
             renv.setdefault('final_' + k, v)
 
+    def verify_table(self, con: Contract):
+        """Module-level value: evaluate the real assignment's right-hand side and check `ensures(value)`."""
+        t0 = time.time()
+        mod, name = con.key.split(':')
+        if (mod, name) not in self.idx.mod_consts:
+            raise KeyError(f'module-level name {con.key} not found')
+        expr = self.idx.mod_consts[(mod, name)]
+        self.cur_module, self.cur_qual, self.cur_class = mod, name, None
+        self.cur_func_key = con.key
+        self.cur_func_key_inline_guard = con.key
+        self.cur_contract = con
+        self.cur_props = con.all_props()
+        self.frame_ctr += 1
+        st = State({'$frame': self.frame_ctr}, [])
+        outs = self.ev(expr, st)
+        for pi, (r, s) in enumerate(outs):
+            if isinstance(r, Raised):
+                self.emit(Obligation(con.key, 'exc', f'p{pi}', con.all_props(), list(s.pc), z3.BoolVal(False),
+                                     origin=f'evaluating the module-level value raises ({r.exc.origin})', path_kind='raise'))
+                continue
+            env = {'value': r}
+            self.entry_env = env
+            for (lam, props, ck) in con.ensures:
+                g = self.eval_clause(lam, env, s)
+                self.emit(Obligation(con.key, ck, f'p{pi}', props, list(s.pc), g, origin=f'module-level value satisfies [{ck}]', path_kind='table'))
+        src = ast.unparse(expr)
+        import hashlib
+        return {'key': con.key, 'paths': len(outs), 'returns': len(outs), 'raises': 0, 'exec_s': time.time() - t0,
+                'lines': (expr.lineno, expr.end_lineno), 'sha': hashlib.sha256(src.encode()).hexdigest()[:16]}
+
     def verify_lemma(self, con: Contract):
         t0 = time.time()
         th = self.th
@@ -344,16 +384,38 @@ class Engine(Core, Expr, Calls, Builtins, Stmts):
         if z3.is_true(g):
             ob.verdict, ob.backend, ob.time_s = 'discharged', 'simplify', time.time() - t0
             return ob
-        s = z3.Solver()
-        s.set('timeout', timeout_ms)
-        for ax in self.th.axioms():
-            s.add(ax)
-        for f in self.standing:
-            s.add(f)
-        for f in ob.pc:
-            s.add(f)
-        s.add(z3.Not(ob.goal))
+        def mk(lean, ms):
+            sl = z3.Solver()
+            sl.set('timeout', ms)
+            for ax in self.th.axioms(lean=lean):
+                sl.add(ax)
+            for f in self.standing:
+                sl.add(f)
+            for f in ob.pc:
+                sl.add(f)
+            sl.add(z3.Not(ob.goal))
+            return sl
+        # 1. lean axiom set (ground instances of the int-embedding / length facts only): fewer hypotheses, so an
+        #    unsat here is a proof; a sat here is a counter-model candidate, confirmed against the full set below
+        s = mk(True, timeout_ms)
         r = s.check()
+        lean_model = None
+        if r == z3.sat:
+            lean_model = self.model_summary(s.model(), ob)
+            s2 = mk(False, max(2000, timeout_ms // 2))
+            r2 = s2.check()
+            if r2 == z3.unsat:
+                s, r = s2, r2
+            elif r2 == z3.sat:
+                s, r = s2, r2
+            # unknown under the full set: keep the lean counter-model
+        elif r != z3.unsat:
+            s2 = mk(False, timeout_ms)
+            r2 = s2.check()
+            if r2 in (z3.sat, z3.unsat):
+                s, r = s2, r2
+            else:
+                s = s2
         ob.backend = 'z3-' + z3.get_version_string()
         if r == z3.unsat:
             ob.verdict = 'discharged'
@@ -364,7 +426,9 @@ class Engine(Core, Expr, Calls, Builtins, Stmts):
                     ob.verdict, ob.reason = 'backend-disagreement', 'z3 python API says unsat, /usr/bin/z3 says sat'
         elif r == z3.sat:
             ob.verdict = 'refuted'
-            ob.model = self.model_summary(s.model(), ob)
+            ob.model = lean_model or self.model_summary(s.model(), ob)
+            if lean_model:
+                ob.reason = 'counter-model found'
         else:
             why = s.reason_unknown()
             ob.reason = why
